@@ -80,6 +80,52 @@ TARGETED = [
     "from t | group {a, b} (aggregate {n = count this}) | join u (==a) | group {u.c} (take 1)",
 ]
 
+
+def exclusion_programs(rng, n):
+    """select !{..} with two or more columns, single and doubled, after from / join / derive"""
+    cols = ["a", "b", "c", "d", "e", "f", "last_name", "first_name", "dept", "city"]
+    out = []
+    for _ in range(n):
+        k = rng.choice([2, 3, 4, 5])
+        cs = ", ".join(rng.sample(cols, k))
+        head = rng.choice(["from t", "from employees", "from t | derive {z = a + 1}", "from t | join u (==id)", "from t | select {t.*}"])
+        shape = rng.choice(["select !{%s}", "select !{!{%s}}", "select !{!{%s}} | take 3", "select !{%s} | sort a", "select {t.*} | select !{!{%s}}"])
+        tgt = rng.choice(["", "prql target:sql.duckdb\n", "prql target:sql.bigquery\n", "prql target:sql.snowflake\n"])
+        out.append(tgt + head + " | " + (shape % cs))
+    return out
+
+
+def keyword_words():
+    """words that are reserved in at least one SQL dialect prqlc knows about (read from sql/keywords.rs of the tree
+    under test, plus a few standard ones): as identifiers their quoting depends on the dialect"""
+    import os as _os
+    from ..common import REPO
+    words = ["select", "user", "order", "group", "table", "from", "time", "timestamp", "date", "top", "limit", "offset", "window", "rank"]
+    try:
+        src = open(_os.path.join(REPO, "prqlc/prqlc/src/sql/keywords.rs"), encoding="utf-8").read()
+        words += [w.lower() for w in re.findall(r'"([A-Z][A-Z_]{2,})"', src)]
+    except OSError:
+        pass
+    seen, out = set(), []
+    for w in words:
+        if w not in seen and re.match(r"^[a-z_]+$", w):
+            seen.add(w); out.append(w)
+    return out
+
+
+def keyword_programs(rng, n):
+    ws = keyword_words()
+    out = []
+    for _ in range(n):
+        a, b, c, d = rng.sample(ws, 4)
+        out.append(rng.choice([
+            "from events | select {id, `%s`, `%s`, `%s`}" % (a, b, c),
+            "from `%s` | derive {`%s` = `%s` + 1} | filter `%s` > 0" % (a, b, c, d),
+            "from t | join `%s` (==id) | select {t.id, `%s`.`%s`}" % (a, a, b),
+            "let `%s` = (from t | select {`%s`, `%s`})\nfrom `%s` | sort `%s`" % (a, b, c, a, b),
+        ]))
+    return out
+
 # multi-file projects: [path, content]
 PROJECTS = {
     "mods-ok": [["Project.prql", "from a.x | join b.y (==id) | select {x.id, y.v}"], ["a.prql", "let x = (from ta | filter id > 2)\nlet z = 1"], ["b.prql", "let y = (from tb | select {id, v})\nlet k = 5"]],
@@ -324,7 +370,8 @@ def run():
     # ------------------------------------------------------------------ inputs
     nrand = ck.n(60, 500)
     progs = []
-    for p in TARGETED + COVER + list(POOL) + ERRORS + PANICKERS + [random_program(ck.rng) for _ in range(nrand)]:
+    kwprogs = keyword_programs(ck.rng, ck.n(12, 60))
+    for p in TARGETED + exclusion_programs(ck.rng, ck.n(16, 80)) + kwprogs + COVER + list(POOL) + ERRORS + PANICKERS + [random_program(ck.rng) for _ in range(nrand)]:
         if p not in progs:
             progs.append(p)
     targets = [None, "sql.postgres", "sql.mssql"]
@@ -367,6 +414,16 @@ def run():
                 steps.append(ck.rng.choice(reqs))
         steps += [ck.rng.choice(reqs) for _ in range(4)]
         hbatches.append([{"steps": steps}])
+    dialects = ["sql." + d for d in ("ansi", "bigquery", "clickhouse", "duckdb", "generic", "glaredb", "mssql", "mysql", "postgres", "redshift", "sqlite", "snowflake")]
+    sweep_srcs = kwprogs + [r["src"] for r in ck.rng.sample(reqs, min(len(reqs), ck.n(12, 60)))]
+    for src in sweep_srcs:
+        for rep in range(2):
+            order = dialects[:]
+            ck.rng.shuffle(order)
+            steps = [{"src": src, "format": False, "sig": False, "target": d} for d in order]
+            steps += [{"src": src, "format": False, "sig": False, "target": d} for d in ck.rng.sample(dialects, 4)]
+            hbatches.append([{"steps": steps}])
+    ck.coverage["dialect_sweep_histories"] = {"sources": len(sweep_srcs), "dialects": len(dialects), "orders_per_source": 2}
     for hi, answers in enumerate(run_procs("c11_hist", hbatches, timeout=300)):
         steps = hbatches[hi][0]["steps"]
         a = answers[0]
